@@ -261,7 +261,11 @@ class GeminiServerProtocol(asyncio.Protocol):
             client_ip=self.peer_name[0] if self.peer_name else "unknown",
             status=response.status,
             path=response.url or "unknown",
-            body_size=len(response.body) if response.body else 0,
+            # (a body that is not text or bytes is turned into a 40 below; the log
+            # line must not fail on it first)
+            body_size=len(response.body)
+            if isinstance(response.body, (str, bytes))
+            else 0,
             duration_ms=round(duration_ms, 2),
         )
 
